@@ -57,6 +57,8 @@ type wfDesc struct {
 	RecvTok   *Term
 	JobLoop   *LoopS
 	ok        bool
+	CountOnly bool // C14: only the pass-count criterion and its failing return matter
+	PassOnly  bool // C14: only the pass-count accumulation matters
 }
 
 func wfConfig() Config {
@@ -331,6 +333,11 @@ func checkAccumulate(c *Check, p *Prog, name string, d *wfDesc, S *Store, body *
 			}
 		}
 	})
+	if d.PassOnly {
+		c.Expect(cntOK, "R-WF-ACC", name+"/pass-count", where, "counters[idx] is incremented by exactly 1 exactly when result[idx].Pass",
+			"counters[idx] is not incremented by 1 exactly on the result[idx].Pass edge")
+		return
+	}
 	c.Expect(qOK, "R-WF-ACC", name+"/Q", where, "Q-table[idx][sample] = result[idx].Q for every idx, sample = the sample index/job token",
 		"no store of result[idx].Q into Q-table[idx][sample] with the expected indices")
 	c.Expect(cntOK, "R-WF-ACC", name+"/pass-count", where, "counters[idx] is incremented by exactly 1 exactly when result[idx].Pass",
@@ -423,6 +430,9 @@ func checkDecide(c *Check, p *Prog, name string, d *wfDesc, s, items int64, pref
 				continue
 			}
 			unknownLoops = append(unknownLoops, l)
+			if d.CountOnly {
+				continue
+			}
 			c.Fail("R-WF-DECIDE", name+"/uniformity-criterion", loopWhere(p, l),
 				"loop over the Q-value table is not `for every item i in 0..%d: ThresholdQ(table[i]) < AlphaT(%g) -> fail` (bound %v, arg %v, fail guard %v, expected %v)", items-1, alphaT, l.Bound, arg, fx.Guard, want)
 			continue
@@ -431,9 +441,11 @@ func checkDecide(c *Check, p *Prog, name string, d *wfDesc, s, items int64, pref
 	c.Expect(len(countLoops) == 1, "R-WF-DECIDE", name+"/pass-count-criterion", where,
 		fmt.Sprintf("every item 0..%d: counters[i] < Threshold(%d) (strict) leads to the failing return", items-1, s),
 		fmt.Sprintf("expected exactly one pass-count decision loop over all %d items, found %d", items, len(countLoops)))
-	c.Expect(len(qLoops) == 1, "R-WF-DECIDE", name+"/uniformity-criterion", where,
+	if !d.CountOnly {
+		c.Expect(len(qLoops) == 1, "R-WF-DECIDE", name+"/uniformity-criterion", where,
 		fmt.Sprintf("every item 0..%d: ThresholdQ(table[i]) < AlphaT=%g (strict) leads to the failing return", items-1, alphaT),
 		fmt.Sprintf("expected exactly one uniformity decision loop over all %d items, found %d", items, len(qLoops)))
+	}
 	// returns
 	var okRet, unknown []*Event
 	nFail := 0
@@ -459,6 +471,18 @@ func checkDecide(c *Check, p *Prog, name string, d *wfDesc, s, items int64, pref
 		switch {
 		case len(failLoops) == 1 && isB && !bv:
 			l := failLoops[0]
+			if d.CountOnly {
+				isCount := false
+				for _, cl := range countLoops {
+					if cl == l {
+						isCount = true
+					}
+				}
+				if !isCount {
+					okRet = append(okRet, r)
+					continue
+				}
+			}
 			e := r.Rets[1]
 			named := false
 			nameT := S.mkOp("ld", TString, gTM, S.SymTerm(l.IterEnd), fieldMarker(S, "Name"))
@@ -480,6 +504,11 @@ func checkDecide(c *Check, p *Prog, name string, d *wfDesc, s, items int64, pref
 				unknown = append(unknown, r)
 			}
 		}
+	}
+	if d.CountOnly {
+		// the failing return of the pass-count criterion must exist and be (false, error)
+		c.Expect(nFail >= 1, "R-WF-RET", name+"/pass-count-fail-return", where, "a failed pass-count criterion returns (false, non-nil error)", "no (false, error) return for a failed pass-count criterion")
+		return
 	}
 	if len(unknown) > 0 {
 		var ds []string
